@@ -265,3 +265,36 @@ Theorem C06_accessors_are_source : forall n, default_repr n ->
 Proof. exact NumAccSrc.accessor_models_are_translated_source. Qed.
 Print Assumptions C06_accessors_are_source.
 
+
+(* ---- from a Value under arbitrary_precision, all ten integer targets, with the F12b exclusion explicit (Proofs/ValueDeAgreeAp.v) ---- *)
+From SJ Require Import Base.Bytes Base.Utf8 Base.FloatB Gen.Tables
+  Model.Read Model.Str Model.Num Model.NumF32 Model.Value Model.De Model.Ignore Model.Ty Model.NumberM Model.DeTyped Model.ValueDe
+  Spec.Syntax Spec.Denote Proofs.GrammarIgnore Proofs.GrammarValueComplete Proofs.SerValue Proofs.GrammarValueBase Proofs.GrammarStr Proofs.GrammarNum
+  Proofs.ValueDeRef Proofs.ValueDeAgree Proofs.ValueDeText Proofs.ValueDeAgreeKey Proofs.ValueDeAgreeMap Proofs.ValueDeAgreeMisc.
+From SJ Require Proofs.NumInt Proofs.TypedInt.
+From SJ Require Import Proofs.ApNumber Proofs.ApNumberFloat Proofs.ValueInt Proofs.LexGlue Proofs.LexOracle Proofs.LexC07 Proofs.FloatDefault.
+From SJ Require Model.Sval Model.Ser Model.ValueSer Spec.Layout Proofs.SerToValueAp.
+From Coq Require Import Reals Lra.
+From Flocq Require Import Core BinarySingleNaN.
+Require Import Lia ZifyBool ZifyNat ZifyN.
+From SJ Require Import Proofs.ValueDeAgreeAp.
+Theorem C06_value_ap_all : forall cf fx (it : Ty.intty) n, arbitrary_precision cf = true -> num_ok n = true ->
+  let lit := render_num n in
+  let v := VNum (NLit lit) in
+  let E := mkEnv RSlice TEof cf in
+  (* the Value routes: str::parse — the literal's exact integer value iff it has neither fraction nor exponent, its sign is
+     accepted by the target and the value is in range; never another value *)
+  from_value_owned cf fx (TInt it) v =
+    (if lit_is_int n && (int_signed it || negb (nneg n)) && Ty.in_range it (lit_int n)
+     then VOk (DInt (lit_int n)) else VErr InvalidNumber 0 0)
+  /\ same_mod_borrow (from_value_owned cf fx (TInt it) v) (from_value_ref cf fx (TInt it) v)
+  (* against from_str on the Number's text: same success, same value, or both fail — unless F12b *)
+  /\ (f12b it lit = false ->
+      agree (from_value_owned cf fx (TInt it) v) (from_input_typed E (TInt it) lit)
+      /\ agree (from_value_ref cf fx (TInt it) v) (from_input_typed E (TInt it) lit))
+  (* F12b: `-0` into i8 / i16 / i32 / i64 is 0 through the Value and an error through the text *)
+  /\ (f12b it lit = true ->
+      from_value_owned cf fx (TInt it) v = VOk (DInt 0) /\ exists c i, from_input_typed E (TInt it) lit = TErr c i).
+Proof. exact (@ValueDeAgreeAp.C06_value_ap_all). Qed.
+Print Assumptions C06_value_ap_all.
+
